@@ -308,21 +308,40 @@ func dstRun(args []string) int {
 					}
 				}
 			}
+			add := func(expr string, sp tsp, prev int64, place string, oracle bool) {
+				want := int64(-2)
+				if oracle {
+					want = firstMatch(z.loc, &sp, prev)
+				}
+				ncases = append(ncases, ncase{len(ops), z, expr, sp, prev, place, want})
+				ops = append(ops, fmt.Sprintf("cron nextz %s %s %d", encRunes(expr), z.name, prev*1e9))
+				impl = append(impl, "")
+				reqs = append(reqs, fmt.Sprintf("N %s %s %d", hexArg(expr), z.name, prev*1e9))
+				dist["place"][place]++
+				dist["kind"]["nextz"]++
+			}
+			// prev INSIDE THE SECOND PASS of a repeated interval (fourth mutation round): readings ahead of prev in that pass are shown for
+			// the second time; whatever the size of the shift (30 min in Caracas 2007, 2 h in St John's 1988, 24 h at the date line), the
+			// offset in force at prev resolves them. Several matches per hour and every second, chained.
+			if _, offBefore := time.Unix(tr[0]-1, 0).In(z.loc).Zone(); int64(offBefore)-tr[1] >= 600 {
+				delta := int64(offBefore) - tr[1]
+				pv := tr[0] + int64(r.Intn(int(delta-60)))
+				m := []int{1, 5, 10, 15}[r.Intn(4)]
+				var mins []int
+				for i := 0; i < 60; i += m {
+					mins = append(mins, i)
+				}
+				sps := tsp{sec: []int{0}, min: mins}
+				for c, q := 0, pv; c < 3 && q > 0; c++ {
+					add(fmt.Sprintf("0 */%d * * * ?", m), sps, q, "second-pass", true)
+					q = firstMatch(z.loc, &sps, q)
+				}
+				add("* * * * * ?", tsp{}, pv, "second-pass", true)
+				add("30 * * * * ?", tsp{sec: []int{30}}, tr[0]+int64(r.Intn(int(delta-60))), "second-pass", true)
+			}
 			// expressions aimed at a spring-forward gap itself (second mutation round)
 			if _, offBefore := time.Unix(tr[0]-1, 0).In(z.loc).Zone(); tr[1] > int64(offBefore) {
 				gap := tr[1] - int64(offBefore)
-				add := func(expr string, sp tsp, prev int64, place string, oracle bool) {
-					want := int64(-2)
-					if oracle {
-						want = firstMatch(z.loc, &sp, prev)
-					}
-					ncases = append(ncases, ncase{len(ops), z, expr, sp, prev, place, want})
-					ops = append(ops, fmt.Sprintf("cron nextz %s %s %d", encRunes(expr), z.name, prev*1e9))
-					impl = append(impl, "")
-					reqs = append(reqs, fmt.Sprintf("N %s %s %d", hexArg(expr), z.name, prev*1e9))
-					dist["place"][place]++
-					dist["kind"]["nextz"]++
-				}
 				// (a) a reading INSIDE the gap, selected by its calendar day / its weekday (a gap of 24 h removes a whole day)
 				w := time.Unix(tr[0]+int64(offBefore)+int64(r.Intn(int(gap))), 0).UTC() // the missing reading, as a UTC-labelled civil time
 				before := tr[0] - 1 - int64(r.Intn(36*3600))
